@@ -15,6 +15,12 @@ Part "step" (explicit transport): exactly divergence-free fluxes that vanish on 
 boundary (integer combinations of discrete curls), dt = {0.5, 1} x CFL limit
 min_c V_c / outflow_c; total amount per component unchanged and cell values stay within the
 initial [min, max].
+
+Part "seq" (hidden state across calls): on ONE data dictionary and ONE BoundaryCondition
+object: discretize; flip Dirichlet/Neumann on every second boundary face by mutating the
+same object in place and rescale the flux magnitudes without changing any sign; discretize
+again and compare with a discretization on a fresh dictionary with a fresh object; flip back,
+rescale again, discretize and compare with the first result.
 """
 
 from __future__ import annotations
@@ -57,7 +63,8 @@ BOUNDS = {
         "0.5 and 1. Flux-magnitude axis {1e-300, 1e-30, 1e-17, 1e-12, 1, 1e12, 1e30, mixed per face}: "
         "T(1,1) and 1-d C(3) (all vectors x all assignments), C(2,1) (all vectors x 4 assignments; 1e-300, 1e-17, mixed), "
         "C(2,2,2) single modifications; embedded letters T(1,1)^gen, C(2,1)^gen2 (sel) and C(2,2)~^gen (step); step part with q x 2^-60, 2^-1000, 2^100 (dt = CFL limit scales exactly). Purity: flux array per call, grid and "
-        "boundary object digest per assignment; reuse (second discretize on the same dictionary) on every 16th vector."
+        "boundary object digest per assignment; seq part (in-place flip of every second boundary face on one bc object + "
+        "rescaled fluxes, there and back) on C(3), T(1,1), C(2,1): all 3^F sign vectors x 4 assignments x components 1,2; reuse (second discretize on the same dictionary) on every 16th vector."
     ),
     "thorough": (
         "quick + C(2,1): all vectors x all 64 assignments (components 2,3: side-wise); C(2,2): <= 1 zero x 4 assignments, "
@@ -134,6 +141,10 @@ def cases(tier):
             out.append({"part": "sel", "grid": c22, "vec": "lex", "z": 0, "prefix": p, "bcset": "all", "comps": 1})
         for p in pref(3, 10):
             out.append({"part": "sel", "grid": c31, "vec": "lex", "z": 10, "prefix": p, "bcset": "four", "comps": 1})
+    # sequences on one data dictionary / one boundary condition object
+    for spec in (c3, t11, c21):
+        for comps in (1, 2):
+            out.append({"part": "seq", "grid": spec, "comps": comps})
     # explicit transport
     steps = [
         (c22, "pm2"), (dict(c22, pert=[[4, [1, -1]]]), "pm2"), ({"kind": "Tensor", "coords": [[0, 1, 3], [0, 2, 3]]}, "pm2"),
@@ -437,10 +448,78 @@ def _run_step(case, out):
             out.samples.append({"grid": gname, "flux": q.tolist(), "dt_cfl": dt_max, "components": comps})
 
 
+def _set_bc_inplace(bc, bf, is_dir):
+    """Mutate the SAME BoundaryCondition object: Dirichlet on bf[is_dir], Neumann on the rest."""
+    bc.is_dir[bf] = is_dir
+    bc.is_neu[bf] = ~is_dir
+
+
+def _run_seq(case, out):
+    import porepy as pp
+
+    spec, comps = case["grid"], case["comps"]
+    g, info = G.build_grid(spec)
+    nf, nc, dim = g.num_faces, g.num_cells, g.dim
+    bf = info["bfaces"]
+    nb = len(bf)
+    mag = _magnitudes(nf)
+    gname = G.grid_name(spec)
+    kw = "transport"
+    full = (1 << nb) - 1
+    alt = sum(1 << i for i in range(0, nb, 2))
+    keys = None
+    for m in sorted(set([full, 0, alt, full ^ alt])):
+        m2 = m ^ alt  # every second boundary face changes its type
+        d1, d2 = G.mask_to_dir(m, nb), G.mask_to_dir(m2, nb)
+        for sv in U.sign_vectors(nf, nf, []):
+            s = np.array(sv)
+            bad = None
+            try:
+                up = pp.Upwind(kw)
+                if keys is None:
+                    keys = (up.upwind_matrix_key, up.bound_transport_dir_matrix_key, up.bound_transport_neu_matrix_key)
+                bc = G.make_bc(g, bf, d1)
+                par = {"bc": bc, "darcy_flux": s * mag, "num_components": comps}
+                data = {pp.PARAMETERS: {kw: par}, pp.DISCRETIZATION_MATRICES: {kw: {}}}
+                up.discretize(g, data)
+                first = [np.array(data[pp.DISCRETIZATION_MATRICES][kw][k].toarray()) for k in keys]
+                # same object, other types; same signs, other magnitudes
+                _set_bc_inplace(bc, bf, d2)
+                par["darcy_flux"] = s * mag * 2.0
+                up.discretize(g, data)
+                second = [np.array(data[pp.DISCRETIZATION_MATRICES][kw][k].toarray()) for k in keys]
+                Uf, Df, Nf = _discretize(g, G.make_bc(g, bf, d2), s * mag * 2.0, comps)
+                fresh = [np.array(x.toarray()) for x in (Uf, Df, Nf)]
+                if not all(np.array_equal(a, b) for a, b in zip(second, fresh)):
+                    bad = "discretize after an in-place change of the boundary condition object returns stale matrices"
+                else:
+                    _set_bc_inplace(bc, bf, d1)
+                    par["darcy_flux"] = s * mag * 0.5
+                    up.discretize(g, data)
+                    third = [np.array(data[pp.DISCRETIZATION_MATRICES][kw][k].toarray()) for k in keys]
+                    if not all(np.array_equal(a, b) for a, b in zip(third, first)):
+                        bad = "discretize after changing the boundary condition object back does not reproduce the first result"
+            except Exception as e:
+                out.violate("Upwind.discretize raised in a sequence on one data dictionary", error=repr(e), grid=gname,
+                            signs=list(sv), dirichlet_mask=m, components=comps)
+                out.ev("exception")
+                continue
+            changed = bool(np.any(d1 != d2)) and not all(np.array_equal(a, b) for a, b in zip(first, fresh))
+            key = (gname, comps, m, sv) if changed else None
+            if bad:
+                out.violate(bad, grid=gname, grid_spec=spec, components=comps, signs=list(sv), dirichlet_faces_first=bf[d1],
+                            dirichlet_faces_second=bf[d2])
+                out.ev("VIOLATION", key)
+            else:
+                out.ev(f"seq/{gname}/n{comps}/" + ("matrices-change" if changed else "matrices-same"), key)
+
+
 def run_case(case) -> Outcome:
     out = Outcome()
     if case["part"] == "sel":
         _run_sel(case, out)
+    elif case["part"] == "seq":
+        _run_seq(case, out)
     else:
         _run_step(case, out)
     return out
